@@ -142,7 +142,7 @@ var elemKinds = []string{"bstr-prot", "bstr-empty", "bstr-payload", "bstr-sig", 
 func init() {
 	drivers["ev-envelope"] = func(a *Args) {
 		d := loadDomains(a.In)
-		cc := Conc{a.Rand()}
+		cc := Conc{r: a.Rand()}
 		w := newEvWorld([]string{"ES256"}, cc, d)
 		t := NewTracer(a.Out)
 		b := 0
